@@ -220,6 +220,25 @@ def descs_struct(tier):
                     nodes += [["a", t1, ["p", "q"], "a" in extra_out], ["b", t2, ["r", "s"], False], ["n", t3, ["a", "b"], "n" in extra_out],
                               ["o1", t4, ["n", x], True], ["o2", t5, ["n", y], True]]
                     yield {"name": "share", "nodes": nodes}
+    # two cones over one shared gate g2, each cone with its own reconvergent input (x through h in the first,
+    # y through g1 in the second): the same gates end up INSIDE different supergates of the two cones
+    tt = ("nand", "nor", "xor") if tier == "quick" else ("and", "or", "nand", "nor", "xor")
+    stages = (None, "buf", "not")
+    for th, t2, t3, t4 in itertools.product(tt, repeat=4):
+        for g1 in (["not", ["y"]], ["buf", ["y"]], ["nand", ["y", "k1"]], ["or", ["y", "k0"]]):
+            for sa, sb in itertools.product(stages, repeat=2):
+                nodes = [["x", "input", [], False], ["y", "input", [], False], ["z", "input", [], False]]
+                if "k1" in g1[1]:
+                    nodes.append(["k1", "1", [], False])
+                if "k0" in g1[1]:
+                    nodes.append(["k0", "0", [], False])
+                nodes += [["h", th, ["x", "z"], False], ["g1", g1[0], g1[1], False], ["g2", t2, ["g1", "h"], False],
+                          ["g3", t3, ["g2", "x"], sa is None], ["g9", t4, ["g2", "y"], sb is None]]
+                if sa:
+                    nodes.append(["oa", sa, ["g3"], True])
+                if sb:
+                    nodes.append(["ob", sb, ["g9"], True])
+                yield {"name": "cones2", "nodes": nodes}
     # several outputs sharing logic: every gate is an output
     I, G, types = bounds(tier)["shared"]
     for gates in space.circuits(I, G, types=types, max_arity=2, min_gates=G):
